@@ -72,7 +72,7 @@ func ruleC19(prog *Program, rep *Report) {
 		return ok && id.Name == "append"
 	}
 	// F-exit
-	rep.Rules = append(rep.Rules, "F-exit: every bare return inside a loop of the shared implementation is directly preceded, in its block or in the block of the enclosing `if <flag> { return }`, by an append to the result: the early exit never drops a difference and never returns before one was recorded")
+	rep.Rules = append(rep.Rules, "F-exit: every bare return inside a loop of the shared implementation, and every break that leaves a clause of its type switch outside a loop, is directly preceded, in its block or in the block of the enclosing `if <flag> { return }`, by an append to the result: the early exit never drops a difference and never returns before one was recorded")
 	exits := 0
 	var walk func(list []ast.Stmt, inLoop bool)
 	walk = func(list []ast.Stmt, inLoop bool) {
@@ -88,6 +88,19 @@ func ruleC19(prog *Program, rep *Report) {
 					rep.Discharge("F-exit", key, prog.Pos(x.Pos()), "preceded by an append to the result")
 				} else {
 					rep.Violate(Finding{Rule: "F-exit", Key: key, Pos: prog.Pos(x.Pos()), Msg: "an early return inside a loop is not directly preceded by recording a difference: Compare can return nil although Diff is not empty (or a difference is dropped)"})
+				}
+			case *ast.BranchStmt:
+				// a break that leaves the clause of the value's kind before its elements or members were compared:
+				// only after the difference that makes further comparison pointless was recorded
+				if x.Tok != token.BREAK || x.Label != nil || inLoop {
+					continue
+				}
+				exits++
+				key := fmt.Sprintf("alt.%s:break#%d", impl.Name(), exits)
+				if i > 0 && isAppendAcc(list[i-1]) {
+					rep.Discharge("F-exit", key, prog.Pos(x.Pos()), "preceded by an append to the result")
+				} else {
+					rep.Violate(Finding{Rule: "F-exit", Key: key, Pos: prog.Pos(x.Pos()), Msg: "a break leaves the clause for this kind of value without a difference having been recorded just before it: the elements, the members or the lengths are never compared on this path"})
 				}
 			case *ast.IfStmt:
 				// `if flag { return }` directly after an append
